@@ -113,7 +113,16 @@ def judge_exec(sim, rec, res, case):
         res.see('endings', ending)
         handed = r['handovers'] or r['dropped']
         if not handed:
-            continue                     # left behind: C07's verdict
+            # left behind by the executor (C07 reports the hand-over side):
+            # the placed task never gives its resources back either
+            if 'watchdog' in sim.notes and sim.alive(r['pid']):
+                res.inconc('watchdog fired while %s still runs' % uid)
+            elif r['unschedules'] == 0:
+                res.violation('placed-task-never-unscheduled',
+                              '%s (%s): %s' % (uid, ending, r['order']),
+                              {'case': case, 'records': rec,
+                               'hits': sorted(sim.hits)})
+            continue
         if r['unschedules'] != 1:
             mech = 'unschedule-published-%d-times' % r['unschedules']
             if r['dropped']:
